@@ -98,6 +98,9 @@ def obs_c05_valnone(case):
             "attrsg": attrs_digest(mg) if mg is not None else []}
 
 
+_HANGS = 0
+
+
 class ObserverTimeout(BaseException):
     """raised by the SIGALRM watchdog inside an observer (pure-Python hangs are interruptible)"""
 
@@ -113,7 +116,8 @@ def obs_c08(case):
     f = bytes.fromhex(case["f"])
     ev = {"prop": "C08", "kind": "parse8", "f": list(f) if len(f) <= 64 else list(f[:64]), "flen": len(f), "out": "", "inspect": []}
     old = signal.signal(signal.SIGALRM, _alarm)
-    signal.alarm(case.get("timeout", 20))
+    global _HANGS
+    signal.alarm(case.get("timeout", 20 if _HANGS == 0 else 2))
     try:
         m, out = parse_call(f, case["mode"], case["pbf"], case["validate"])
         ev["out"] = out
@@ -130,6 +134,7 @@ def obs_c08(case):
                     ev["inspect"].append([name, type(ex).__name__])
     except ObserverTimeout:
         ev["out"] = "hang"
+        _HANGS += 1
     finally:
         signal.alarm(0)
         signal.signal(signal.SIGALRM, old)
